@@ -454,7 +454,11 @@ CLAIMS = {
          "Go's automatic-semicolon, precedence and composite-literal rules; oracle go-printer). Dead-code elimination (go/dce.rs) has a "
          "Lean model tied exactly to the real pass (gv dce | gomlmodel dce) and theorems in Props/Dce.lean: dce_no_unused (every kept "
          "local and type-switch binding is read), dce_decl_before_use, prune_imports_exact, prune_funcs_closed. "
-         "Known findings: closures in func-typed positions, nested type switch on one scrutinee, dyn-annotated struct literal.",
+         "Name-test catalogue (gv c02names; validation, not proof): the string literals the middle/back end compares names with are re-read from the Rust on every run "
+         "(extract.c02_name_tests) and every kind of user-named item (25 kinds incl. methods, generic items, library-package items and package names) is compiled under "
+         "every such name as-is, as prefix/suffix/infix and in the other case; Go.Check and the printer tie judge the real Go of each accepted program (oracle name-test). "
+         "Known findings: closures in func-typed positions, nested type switch on one scrutinee, dyn-annotated struct literal; from the name-test catalogue: user functions "
+         "named like a builtin, types/packages whose name contains `TParam`, a library function called `main`, items called `main`/`main0`.",
     design_ref="§5 C02; DCE (C02/C09) — as built",
     note="Trusted: Go.Check as our reading of the Go spec (accepts the 73 corpus programs real Go accepted, rejects 058 as real Go did); "
          "goast dump; goparse.rs as our reading of Go's lexical grammar; compile.rs is modelled (Model/GoCompile.lean, exact tie `gv gocomp`): the scope rules of its "
